@@ -3,6 +3,7 @@ package security
 import (
 	"fmt"
 	"regexp"
+	"sort"
 )
 
 // Severity represents the severity level of a security finding.
@@ -79,12 +80,26 @@ func (s *Scanner) Scan(sql string) []Finding {
 	for _, r := range s.rules {
 		findings = append(findings, r.Check(sql)...)
 	}
-	// Compute line/column for each finding
+	// Compute line/column for each finding from one table of line starts, so
+	// that many findings do not each rescan the text from its beginning.
+	var lineStarts []int
 	for i := range findings {
 		if findings[i].Position >= 0 && findings[i].Line == 0 {
-			line, col := posToLineCol(sql, findings[i].Position)
-			findings[i].Line = line
-			findings[i].Column = col
+			if lineStarts == nil {
+				lineStarts = []int{0}
+				for j := 0; j < len(sql); j++ {
+					if sql[j] == '\n' {
+						lineStarts = append(lineStarts, j+1)
+					}
+				}
+			}
+			pos := findings[i].Position
+			if pos > len(sql) {
+				pos = len(sql)
+			}
+			n := sort.Search(len(lineStarts), func(k int) bool { return lineStarts[k] > pos })
+			findings[i].Line = n
+			findings[i].Column = pos - lineStarts[n-1] + 1
 		}
 	}
 	return findings
